@@ -295,7 +295,8 @@ impl Xot {
     /// assert!(xot.is_removed(text));
     /// ```
     pub fn is_removed(&self, node: Node) -> bool {
-        self.arena()[node.get()].is_removed()
+        // compare the stamps: the slot of a removed node can be in use again
+        node.get().is_removed(self.arena())
     }
 
     /// Get parent node.
